@@ -24,7 +24,7 @@ import (
 
 var ErrInjected = errors.New("injected API failure")
 
-// ListFault kinds: "" ok, "error", "nonlist" (a Pod instead of a list), "nonobjects" (a list whose items are
+// ListFault kinds: "" ok, "error", "canceled" (an error wrapping context.Canceled while the context is alive), "nonlist" (a Pod instead of a list), "nonobjects" (a list whose items are
 // not API objects), "noaccessor" (object without list meta), "block" (returns only when ctx is cancelled).
 type ListFault struct {
 	Kind    string
@@ -210,6 +210,9 @@ func (s *Server) List(ctx context.Context, opts metav1.ListOptions) (runtime.Obj
 	switch f.Kind {
 	case "error":
 		return nil, ErrInjected
+	case "canceled":
+		// the API reports a cancellation although the caller's context is alive (e.g. a proxy timeout surfaced as context.Canceled)
+		return nil, fmt.Errorf("list interrupted: %w", context.Canceled)
 	case "nonlist":
 		return &corev1.Pod{ObjectMeta: metav1.ObjectMeta{Name: "not-a-list"}}, nil
 	case "nonobjects":
